@@ -21,12 +21,12 @@ ImplCmp(i, e) ==
   << (IF e.call = "bad"
       THEN F("outcome." \o OutClass(e), OutClass(e) \in Predict(e.ses))
       \* i = 1: the later text names a class without a valid declaration
-      \* (part H); it may be rejected
+      \* (part H) or is a defective production (part I); it may be rejected
       ELSE F("good.outcome", e.out = "ok" \/ (i = 1 /\ e.out \in MOFErrors)))
      \cup F("position.column_in_line",
             ~(IsMOFCompileError(e) /\ e.haspos)
             \/ \E c \in Cands(e) : ColInLine(e, c)),
-     IF e.call = "bad" THEN (IF LaterUndeclared(e.ses) THEN 1 ELSE 0) ELSE i >>
+     IF e.call = "bad" THEN (IF LaterInvalid(e.ses) THEN 1 ELSE 0) ELSE i >>
 
 TraceBatch == JsonDeserialize(IOEnv.TRACE_FILE).traces
 
